@@ -3,6 +3,7 @@ import contracts.interleaved as ci
 from pyvc.report import run_contracts
 from props.common import select
 from props import C04
+from replay import interleaved as rp
 
 LEVEL = "proof"
 MINE = [r"yield[23]:assert", r"loop2:", r"loop3:", r"_eval_loop", r"__iter__", r"__init__:(ensures(6|7|8|2\d)|post-induction|loop1|loop0)",
@@ -12,7 +13,8 @@ MINE = [r"yield[23]:assert", r"loop2:", r"loop3:", r"_eval_loop", r"__iter__", r
 def run(res):
     run_contracts(res, [ci.TRAINING_LOOP, ci.EVAL_LOOP, ci.ITER, ci.INIT, ci.GETITEM, ci.COLLATOR], ci.CONTRACTS)
     select(res, MINE)
-    C04.bounded(res, 6000 if res.tier == "thorough" else 600)
+    C04.bounded(res, 6000 if res.tier == "thorough" else 600, rp.check_c05)
 
 
-replay = C04.replay
+def replay(ob):
+    return C04.replay(ob, rp.check_c05)
